@@ -10,7 +10,8 @@ from core import TRUST_COMMON
 import histlib
 from histlib import canon_v, tok, deep_state
 
-MODS = {"C03": ["Nanite.Props.C03", "Nanite.Witness.C03", "Nanite.Audit.C03"],
+MODS = {"C03": ["Nanite.Props.C03", "Nanite.Witness.C03", "Nanite.Audit.C03", "Nanite.Props.C03Scan",
+                "Nanite.Audit.C03Scan"],
         "C06": ["Nanite.Props.C03", "Nanite.Witness.C03", "Nanite.Audit.C06"],
         "C09": ["Nanite.Props.C09", "Nanite.Props.C03", "Nanite.Audit.C09"],
         "C10": ["Nanite.Props.C03", "Nanite.Witness.C03", "Nanite.Audit.C10"]}
@@ -185,23 +186,35 @@ def exec_op(ctx, w, op, rng, check_fresh):
         w.history.append(op["desc"])
         return None, None
     if op["op"] == "emod":
-        # compute_emodulus_mindelta(): the E(delta) scan is cached with the fit results; it is not part of
-        # the Lean alphabet (no model line) - the fresh-object oracle compares the visible scan arrays
-        with warnings.catch_warnings():
+        # compute_emodulus_mindelta(): the E(delta) scan is cached with the fit results (model: Op.emod); the
+        # fresh-object oracle additionally compares the visible scan arrays
+        with histlib.Counter() as cnt, warnings.catch_warnings():
             warnings.simplefilter("ignore")
             try:
                 e_, d_ = idnt.compute_emodulus_mindelta()
                 out_ = f"{len(e_)} samples"
+                outcome = "ok"
+            except KeyError:
+                outcome = out_ = "err KeyError"
+            except nfit.FitKeyError:
+                outcome = out_ = "err FitKeyError"
+            except nfit.FitDataError:
+                outcome = out_ = "err FitDataError"
             except BaseException as e:  # noqa
-                out_ = "err " + type(e).__name__
+                outcome = out_ = "err other:" + type(e).__name__
         w.last_mut = None
         w.history.append(f"compute_emodulus_mindelta() -> {out_}")
+        if not w.raw_unchanged():
+            ctx.violation("raw-data-modified", "compute_emodulus_mindelta() modified the recorded raw data",
+                          {"history": list(w.history)})
         if check_fresh:
             for sig, what in w.fresh_oracle():
                 direct = any(h.startswith("set preprocessing") for h in w.history)
                 ctx.violation(DIRECT_EDIT_SIG if direct else sig, what + " (after compute_emodulus_mindelta())",
                               {"history": list(w.history), "curve": w.cid})
-        return None, None
+        obs = w.observe(outcome, cnt)
+        obs["fit_ran"] = None            # (the fits inside a scan are not fits of the curve: not compared)
+        return {"op": "emod"}, obs
     attr_call = False
     if op["op"] == "pp" and op["steps"] == "ATTR":
         # caller edits the public attribute objects in place, then calls with the None defaults
@@ -342,10 +355,11 @@ def parse_model(out):
     head, rest = out.split(" res=", 1)
     res = rest.split(" ")[0] == "true"
     fitcols = rest.split(" fitcols=")[1].split(" ")[0] == "true"
+    scan = rest.split(" scan=")[1].split(" ")[0] == "true"
     nfits = int(rest.split(" nfits=")[1].split(" ")[0])
     nrates = int(rest.split(" nrates=")[1].split(" ")[0])
     fp = rest.split(" fp=", 1)[1]
-    return head, res, fitcols, nfits, nrates, fp
+    return head, res, fitcols, nfits, nrates, fp, scan
 
 
 def defaults_line(step_ids):
@@ -542,18 +556,20 @@ def run_histories(ctx, pid, focus, nhist, check_fresh=True, direct_pp_edits=True
         if exp is None:
             continue
         op, obs = exp
-        head, res, fitcols, nfits, nrates, fp = parse_model(o)
+        head, res, fitcols, nfits, nrates, fp, scan = parse_model(o)
         m = {"outcome": head, "res": res, "fitcols": fitcols, "fit_ran": nfits > prev_nfits,
-             "rated": nrates - prev_nrates, "fp": fp}
+             "rated": nrates - prev_nrates, "fp": fp, "scan": scan}
+        if op["op"] == "emod":
+            m["fit_ran"] = None
         prev_nfits, prev_nrates = nfits, nrates
         if op["op"] == "rate":
             cached_real = (obs["rated"] == 0 and op["regressor"].lower() != "none")
             a = {"outcome": "ok cached=" + str(cached_real).lower(), "res": obs["res"], "fitcols": obs["fitcols"],
-                 "fit_ran": obs["fit_ran"], "rated": obs["rated"], "fp": obs["fp"]}
+                 "fit_ran": obs["fit_ran"], "rated": obs["rated"], "fp": obs["fp"], "scan": obs["scan"]}
             if obs["outcome"] != "ok":
                 a["outcome"] = obs["outcome"]
         else:
-            a = {k: obs[k] for k in ("outcome", "res", "fitcols", "fit_ran", "rated", "fp")}
+            a = {k: obs[k] for k in ("outcome", "res", "fitcols", "fit_ran", "rated", "fp", "scan")}
         if a != m:
             diff = {k: (a[k], m[k]) for k in a if a[k] != m[k]}
             ctx.disagree({"history": hist}, {k: v[0] for k, v in diff.items()}, {k: v[1] for k, v in diff.items()},
